@@ -1118,6 +1118,9 @@ class Interp:
             if fac is None:
                 return collections.defaultdict(None)
             raise LexUnknown("defaultdict factory")
+        if name in ("os.path.splitext", "os.path.basename", "os.path.dirname", "posixpath.splitext"):
+            import os.path as _osp
+            return lift(getattr(_osp, name.split(".")[-1]), *args)
         if name in ("re.match", "re.search", "re.fullmatch", "re.sub", "re.split", "re.findall"):
             fn = getattr(re, name.split(".")[1])
             try:
